@@ -43,7 +43,7 @@ def configs(tier):
                     c['explore'] = True
                     c['no_feasibility'] = True
                 out.append(c)
-                if model in ('shallowwater', 'euler1d') and (tier != 'quick' or num in ('extrapol1', 'muscl:minmod')):
+                if model in ('shallowwater', 'euler1d') and (tier != 'quick' or num in ('extrapol1', 'extrapol3', 'muscl:minmod')):
                     out.append(dict(c, bc='sym'))
             if model == 'euler1d' and tier != 'quick':
                 for g in ('7/5', '5/3'):
